@@ -51,6 +51,7 @@ theorem ev_loop_stop (c : Cfg) (l : Nat) (x : E) (ts : List Tok) (h : stops c l 
   | .lp :: _, _ => simp [run]
   | .rp :: _, _ => simp [run]
   | .colon :: _, _ => simp [run]
+  | .asg _ :: _, _ => simp [run]
 
 theorem ev_loop_bin (c : Cfg) (l s : Nat) (x y : E) (r r' : List Tok) (res : Res) (hs : c.bin s = some l) (hl : l ≠ 0)
     (h1 : Ev c (.level (l + 1) r) (.ok y r')) (h2 : Ev c (.loop l (.bin s x y) r') res) : Ev c (.loop l x (.sym s :: r)) res := by
@@ -85,6 +86,7 @@ theorem okAfter_mono (c : Cfg) (l : Nat) (ts : List Tok) (h : okAfter c l ts) : 
   | .lp :: _, _ => trivial
   | .rp :: _, _ => trivial
   | .colon :: _, _ => trivial
+  | .asg _ :: _, _ => trivial
 
 theorem okAfter_le (c : Cfg) (l k : Nat) (ts : List Tok) (h : okAfter c l ts) : okAfter c (l + k) ts := by
   induction k with
@@ -101,6 +103,7 @@ theorem okAfter_stops (c : Cfg) (l m : Nat) (ts : List Tok) (h : okAfter c l ts)
   | .lp :: _, _ => trivial
   | .rp :: _, _ => trivial
   | .colon :: _, _ => trivial
+  | .asg _ :: _, _ => trivial
 
 /-- **descent**: a value read at the prefix level is what every looser level starts its loop with -/
 theorem ev_descend (c : Cfg) (ts : List Tok) (x : E) (r : List Tok) (hN : Ev c (.level c.N ts) (.ok x r)) :
@@ -185,6 +188,7 @@ theorem okAfter0_stops0 (c : Cfg) (ts : List Tok) (h : okAfter c 0 ts) : stops c
   | .lp :: _, _ => trivial
   | .rp :: _, _ => trivial
   | .colon :: _, _ => trivial
+  | .asg _ :: _, _ => trivial
 
 theorem good_of_value (c : Cfg) (e : E) (hlev : lev c e = c.N) (hV : ∀ rest, Ev c (.level c.N (raw c e ++ rest)) (.ok e rest)) : Good c e := by
   constructor
